@@ -34,6 +34,7 @@ type OcspCfg struct {
 	Dur    map[string]int      `json:"dur"`
 	Nu     string              `json:"nu"`
 	Lists  map[string][]string `json:"lists"`
+	Alt    map[string][]string `json:"alt"`
 }
 
 func (o OcspCfg) TLA() string {
@@ -44,11 +45,18 @@ func (o OcspCfg) TLA() string {
 		}
 		return "<<" + strings.Join(q, ", ") + ">>"
 	}
-	return fmt.Sprintf(`[strict |-> [v \in {"v1","v2"} |-> IF v = "v1" THEN %s ELSE %s], dur |-> [v \in {"v1","v2"} |-> IF v = "v1" THEN %d ELSE %d], nu |-> %q, lists |-> [c \in {"cA","cB"} |-> IF c = "cA" THEN %s ELSE %s]]`,
-		tlaBool(o.Strict["v1"]), tlaBool(o.Strict["v2"]), o.Dur["v1"], o.Dur["v2"], o.Nu, seq(o.Lists["cA"]), seq(o.Lists["cB"]))
+	alt := o.Alt
+	if alt == nil {
+		alt = o.Lists
+	}
+	return fmt.Sprintf(`[strict |-> [v \in {"v1","v2"} |-> IF v = "v1" THEN %s ELSE %s], dur |-> [v \in {"v1","v2"} |-> IF v = "v1" THEN %d ELSE %d], nu |-> %q, lists |-> [c \in {"cA","cB"} |-> IF c = "cA" THEN %s ELSE %s], alt |-> [c \in {"cA","cB"} |-> IF c = "cA" THEN %s ELSE %s]]`,
+		tlaBool(o.Strict["v1"]), tlaBool(o.Strict["v2"]), o.Dur["v1"], o.Dur["v2"], o.Nu, seq(o.Lists["cA"]), seq(o.Lists["cB"]), seq(alt["cA"]), seq(alt["cB"]))
 }
 
 func (o OcspCfg) Key() string {
+	if o.Alt == nil {
+		o.Alt = o.Lists
+	}
 	b, _ := json.Marshal(o)
 	return string(b)
 }
@@ -200,7 +208,11 @@ func newOcspWorld(cfg OcspCfg, seed int64) *ocspWorld {
 		w.deleg[c] = pki.NewCA(pki.CAOpts{Name: "Delegated Responder " + c, Parent: iss, NotCA: true, KeyUsage: x509.KeyUsageDigitalSignature, ExtKU: []x509.ExtKeyUsage{x509.ExtKeyUsageOCSPSigning}, Serial: int64(220 + ci)})
 		w.delegNo[c] = pki.NewCA(pki.CAOpts{Name: "Not A Responder " + c, Parent: iss, NotCA: true, KeyUsage: x509.KeyUsageDigitalSignature, ExtKU: []x509.ExtKeyUsage{x509.ExtKeyUsageClientAuth}, Serial: int64(230 + ci)})
 		var urls []string
-		for i, cl := range cfg.Lists[c] {
+		classesForURLs := cfg.Lists[c]
+		if cfg.Alt != nil && len(cfg.Alt[c]) > len(classesForURLs) {
+			classesForURLs = cfg.Alt[c]
+		}
+		for i, cl := range classesForURLs {
 			switch cl {
 			case "ldap":
 				urls = append(urls, fmt.Sprintf("ldap://directory.example/ocsp-%s-%d", c, i+1))
@@ -303,8 +315,13 @@ func (w *ocspWorld) respond(c, cl string) (int, []byte) {
 	case "ownCert":
 		own := &pki.CA{Key: w.leaves[c].Key, Cert: w.leaves[c].Cert}
 		return 200, mk(claim, own, own.Cert, true, serial)
+	case "ownCertBare": // the same key, but the certificate is not embedded
+		own := &pki.CA{Key: w.leaves[c].Key, Cert: w.leaves[c].Cert}
+		return 200, mk(claim, own, own.Cert, false, serial)
 	case "delegNoEku":
 		return 200, mk(claim, w.delegNo[c], w.delegNo[c].Cert, true, serial)
+	case "delegNoEkuBare":
+		return 200, mk(claim, w.delegNo[c], w.delegNo[c].Cert, false, serial)
 	case "sibling":
 		return 200, mk(claim, w.siblings[c], w.siblings[c].Cert, false, serial)
 	case "otherSerial":
@@ -389,6 +406,14 @@ func (w *ocspWorld) tick() {
 	if d := time.Until(target); d > 0 {
 		time.Sleep(d)
 	}
+}
+
+// switchLists: the responders of c turn into the alternative behaviour list of the configuration.
+func (w *ocspWorld) switchLists(c string) {
+	if w.cfg.Alt != nil {
+		w.lists[c] = append([]string(nil), w.cfg.Alt[c]...)
+	}
+	w.install()
 }
 
 func (w *ocspWorld) flip(c string) {
